@@ -11,17 +11,18 @@
                       object IDs are SHA-256 hashes) — an explicit premise, see notes/C06.md
 
    Engine level (StorageEngine.ListWithCursor / mergeListResults: ListModel.engine_list,
-   merge_list_results, reference ListModel.eng_listed): full statement, NOT proved in Coq yet,
-   checked differentially on every run (model = implementation = reference):
-     C06_engine_chain : forall shards (all wf_state, oids_pos, distinct IDs) sizes (all >= 1) cur,
-        concat (fst (engine_pages_from shards sizes cur)) = firstn (list_sum sizes) (eng_listed shards cur)
-        and then ErrEndOfListing, where eng_listed = every address listed by some shard, once, in address order,
-        with ShardIDs = exactly the shards listing it.
-   Nothing is proved in Coq about the engine merge yet. *)
+   merge_list_results, engine_pages_from; reference ListModel.eng_listed), proved in Meta/ListEngine.v:
+     C06_engine_page      : one engine call = the first n entries of eng_listed after the cursor
+     C06_engine_chain     : any page sizes >= 1 from any cursor: the concatenated pages are eng_listed in order
+                            (a prefix while the sizes do not exhaust it), then ErrEndOfListing
+     C06_engine_reference : eng_listed is strictly sorted by address (no duplicates), holds an address iff some
+                            shard lists it, and its ShardIDs are exactly the shards listing it
+   shards = any list of (shard ID, run h_i); premise oids_pos for every shard as at shard level.
+   The model of the engine itself is tied to the real engine differentially on every run. *)
 From Coq Require Import List NArith ZArith Bool Sorted.
 Import ListNotations.
 From NV Require Import Gen.MetaConsts Meta.SMap Meta.Model Meta.Spec Meta.StatusProofs Meta.WfProofs
-     Meta.ListModel Meta.ListProofs Meta.ListProofs2 Meta.ListProofs3.
+     Meta.ListModel Meta.ListProofs Meta.ListProofs2 Meta.ListProofs3 Meta.ListEngine.
 Local Open Scope N_scope.
 
 (* listing from an arbitrary cursor = the first n listed objects after it *)
@@ -85,6 +86,68 @@ Example C06_example :
   pages_from (run h_ex) [1; 2; 1]%nat nil_cursor = ([[(1, 2, TRegular)]; [(1, 3, TTombstone); (2, 1, TRegular)]], None).
 Proof. vm_compute. split; reflexivity. Qed.
 
+(* ---------------------------------------------------------------- engine level *)
+
+(* one call of StorageEngine.ListWithCursor = the first n entries of the reference after the cursor *)
+Theorem C06_engine_page : forall hs n cur,
+  let shards := shards_of hs in
+  Forall (fun sh : shard => oids_pos (snd sh)) shards ->
+  fst (engine_list shards n cur) = firstn n (eng_listed shards cur).
+Proof. intros hs n cur shards P. apply engine_page. now apply shards_of_ok. Qed.
+
+(* the client loop over the engine: any sequence of page sizes >= 1 from any cursor (in particular the
+   nil cursor) yields the reference in order, each entry once, then end-of-listing *)
+Theorem C06_engine_chain : forall hs sizes cur,
+  let shards := shards_of hs in
+  Forall (fun sh : shard => oids_pos (snd sh)) shards -> Forall (fun n => (1 <= n)%nat) sizes ->
+  concat (fst (engine_pages_from shards sizes cur)) = firstn (list_sum sizes) (eng_listed shards cur) /\
+  match snd (engine_pages_from shards sizes cur) with
+  | Some cur' => (length (eng_listed shards cur) <= list_sum sizes)%nat ->
+                 forall n, engine_list shards n cur' = ([], None)
+  | None => concat (fst (engine_pages_from shards sizes cur)) = eng_listed shards cur
+  end.
+Proof.
+  intros hs sizes cur shards P F.
+  pose proof (c06_engine_chain shards sizes cur (shards_of_ok hs P) F) as [H1 H2].
+  split; auto. destruct (snd (engine_pages_from shards sizes cur)); auto. now destruct H2.
+Qed.
+
+(* what the reference is: strictly sorted by address (so every address at most once), an address is
+   present iff at least one shard lists it after the cursor, and the ShardIDs of an entry are exactly
+   the IDs of the shards that list its address (in shard order) *)
+Theorem C06_engine_reference : forall hs cur,
+  let shards := shards_of hs in
+  StronglySorted addr_lt (map eitem_addr (eng_listed shards cur)) /\
+  (forall a, In a (map eitem_addr (eng_listed shards cur)) <->
+             exists sh, In sh shards /\ In a (map item_addr (listed_after (snd sh) cur))) /\
+  (forall e, In e (eng_listed shards cur) ->
+             snd e = map fst (filter (fun sh : shard => existsb (fun it => addr_eqb (item_addr it) (eitem_addr e))
+                                                               (listed_after (snd sh) cur)) shards)).
+Proof. intros hs cur shards. apply c06_engine_reference. Qed.
+
+(* non-vacuity: two shards with overlapping content (object 1/2 on both), premises hold, page sizes
+   2, 1, 4 from the nil cursor list the union once with the exact holders, then end-of-listing *)
+Definition h_ex2 : list op :=
+  [ OPut 1 (Obj 2 (hx TRegular None) None); OPut 1 (Obj 1 (hx TRegular None) None);
+    OPut 2 (Obj 4 (hx TRegular None) None); OPut 3 (Obj 5 (hx TRegular None) None) ].
+Definition shs_ex : list shard := shards_of [(7, h_ex); (9, h_ex2)].
+Example C06_engine_example :
+  Forall (fun sh : shard => oids_pos (snd sh)) shs_ex /\
+  eng_listed shs_ex nil_cursor =
+    [(1, 1, TRegular, [9]); (1, 2, TRegular, [7; 9]); (1, 3, TTombstone, [7]); (2, 1, TRegular, [7]);
+     (2, 4, TRegular, [9]); (3, 5, TRegular, [9])] /\
+  engine_pages_from shs_ex [2; 1; 4]%nat nil_cursor =
+    ([[(1, 1, TRegular, [9]); (1, 2, TRegular, [7; 9])]; [(1, 3, TTombstone, [7])];
+      [(2, 1, TRegular, [7]); (2, 4, TRegular, [9]); (3, 5, TRegular, [9])]], Some (3, 5)) /\
+  engine_list shs_ex 3 (3, 5) = ([], None).
+Proof.
+  split; [|vm_compute; repeat split; reflexivity].
+  repeat constructor; apply oids_posb_ok; vm_compute; reflexivity.
+Qed.
+
 Print Assumptions C06_any_cursor.
 Print Assumptions C06_shard_chain.
 Print Assumptions C06_never_lists_removed.
+Print Assumptions C06_engine_page.
+Print Assumptions C06_engine_chain.
+Print Assumptions C06_engine_reference.
